@@ -30,10 +30,12 @@ CLAIMS = {
             "contract refinement + ledger invariant with crash ghost; whole-system invariant by induction over the steps of the composed transition system (Lean 4) ; differential correspondence incl. crash/replacement sequences; the system model replays every simulated step"),
     "C05": ("Lean theorems over the two-thread worker model, for every interleaving of receiver steps (put/steal/shutdown, also behind the marker) with "
             "main-thread steps: executed/held/queued tests form a subsequence of the received stream whose missing elements are exactly the replied ones; "
-            "next-item announcements form a chain ending in the held entry; a steal never touches started or announced tests",
+            "next-item announcements form a chain ending in the held entry; a steal never touches started or announced tests; WHOLE SYSTEM, every scheduler: the queue state of every worker "
+            "process in every reachable state of the composed system is reached by steps of that worker machine (C05_sys_workers_refine), so all of the above holds of every worker in every execution "
+            "(C05_sys_order_and_nextitem), and what a worker has started is what it has completed plus the test in progress (C01_sys_started_is_completed_plus_running)",
             "invariant by induction over arbitrary step lists (Lean 4) ; differential correspondence on the real WorkerInteractor threads with pre-emption at lock releases"),
     "C07": ("Lean theorems: the atomic steal removes all requested tests or none (duplicate-free queue), replies exactly what it removed (unconditionally), "
-            "the rest still runs in order; controller side: a steal act needs no outstanding request, asks for a book suffix leaving two, and the reply is "
+            "the rest still runs in order (lifted to every worker of the whole system, any scheduler, by C05_sys_workers_refine); controller side: a steal act needs no outstanding request, asks for a book suffix leaving two, and the reply is "
             "processed as the contract's unsched act, which the ledger theorem accepts",
             "worker-model theorems + contract refinement (Lean 4) ; differential correspondence of worker threads and of the worksteal scheduler"),
     "C16": ("Lean theorems (load, worksteal): every scheduler call keeps the complete wire log free of anything behind a node's shutdown (hence one shutdown per node), "
@@ -58,7 +60,8 @@ CLAIMS = {
             "fold invariant over the directory walk, finite-map extensionality (Lean 4) ; differential correspondence on a real scratch tree and the real RemoteControl.loop_once"),
     "C10": ("Lean theorems about the DSession model, for EVERY scheduler (arbitrary interface), every event sequence and every budget: the replacement workers started are exactly "
             "min(workers lost, budget) (negative budget = 0); zero disables replacement; the death that exceeds the budget records the documented summary, triggers shutdown of every "
-            "scheduled worker and starts nothing, and so does every later death; the default budget function (explicit, 4 per -n worker, else none)",
+            "scheduled worker and starts nothing, and so does every later death; the default budget function (explicit, 4 per -n worker, else none); WHOLE SYSTEM, every scheduler (C10_sys_restarts_bounded): after any execution of the "
+            "composed system - any schedule of threads, crashes at any point - the worker processes ever started are numnodes + min(failedNodes, budget), with consecutive ids",
             "invariant by induction over the controller loop, generic in the scheduler (Lean 4) ; whole-system simulation on the real DSession/NodeManager/WorkerController stack whose controller trace is replayed by the Lean model; differential check of the default-budget function"),
     "C12": ("Lean theorems (any scheduler, any event sequence): replacement ids are gw k, gw k+1, ... in start order, so all worker ids of a run are pairwise distinct and never reused; "
             "environment variables, fixtures, run uid and per-worker base temporary directories are validated on real runs (partial: not modelled)",
@@ -66,7 +69,9 @@ CLAIMS = {
     "C11": ("Lean theorems about the DSession model for every scheduler that is quiet while all its nodes shut down (proved for the scheduler of each of the six modes): "
             "once a stop reason is set it stays set, every loop iteration ends with the shutdown in force and all scheduled workers told to shut down, and from then on - and in the "
             "iteration that sets it - nothing is dispatched, whatever events follow (ready, finished, crashed workers incl. replacement within the budget); the run is interrupted iff a "
-            "reason was set; a reason is set only by --maxfail failed reports or a worker ending with fail-fast/stop/keyboard interrupt",
+            "reason was set; a reason is set only by --maxfail failed reports or a worker ending with fail-fast/stop/keyboard interrupt; WHOLE SYSTEM, all six modes (C11_sys_no_dispatch_after_stop): "
+            "continue any execution of the composed system after the stop decision in any way - receiver threads flipping flags and writing shutdown signals between controller iterations, crashes, replacements - "
+            "and the dispatching commands ever written to the wires never change again",
             "invariant (ShutInv) + frame lemmas by case analysis over all handlers, induction over the event list, per-scheduler quietness lemmas (Lean 4) ; whole-system simulation on the real stack with the stop decision observed at the moment DSession.shouldstop is assigned"),
     "C17": ("Lean theorems: the receiver (process_from_remote model, any message stream) passes on exactly the events before the first terminating message and then one notice, "
             "nothing of a written-off worker afterwards, an undecodable message marks the worker down at once; worker_errordown (any scheduler): a death the scheduler does not know is "
@@ -92,7 +97,8 @@ CLAIMS = {
             "state with the session not finished - also during start-up and collection - some non-crash step is enabled (C02_sys_load_no_standoff_any_phase, via a second invariant layer about the early phase); with equal non-empty collections and "
             "no undecodable message that step SUCCEEDS - no internal error of the controller and never 'Unexpectedly no active workers available' (C02_sys_load_progress, with "
             "C17_sys_load_controller_never_raises and the invariants J: tests left and no shutdown => an active worker not told to shut down, K: nobody active => shutdown in force). "
-            "Partial: termination (a variant under fairness and finitely many crashes) and the other five modes are validated by the whole-system simulation on the real classes, not proved",
+            "TERMINATION (load): with a restart budget every step of every thread and every crash strictly decreases a lexicographic measure in N^5, hence no infinite execution exists and every way of running the system "
+            "ends with the session finished (C02_sys_load_terminates, C02_sys_load_reaches_its_end). Partial: the other five modes and an unlimited budget are validated by the whole-system simulation on the real classes, not proved",
             "arithmetic case analysis of check_schedule, state invariant by induction over scheduler calls lifted to the DSession loop, whole-system invariant preserved by every step kind + induction over reachability (Lean 4) ; step-by-step replay of every simulated run by the Lean system model with the invariant evaluated after every step ; whole-system simulation with stand-off detection, differential correspondence of schedulers and of the worker threads (lock pre-emption)"),
     "C08": ("Lean theorems about the each scheduler (repaired): schedule() sends runtests_all + shutdown to every new node with its whole collection as book, skips started and still-collecting "
             "nodes; the crash item is the head of the dead node's book and the rest is parked; tests_finished is false while a rest is parked; a replacement of the same spec and collection "
